@@ -156,7 +156,7 @@ var stubAssumptions = []string{
 	"solver: z3 4.8.12 (-in), bit-vector + UF terms, no set-logic; any (error line or unknown makes the run inconclusive (exit 2)",
 	"stub fmt.Sprintf/Errorf/log.Printf: native on concrete arguments, opaque otherwise; no control flow depends on message text",
 	"stub hash/crc32 IEEE: native on concrete bytes, uninterpreted function on symbolic bytes (functional consistency only)",
-	"stub compress/zlib: real zlib on concrete bytes; stored-block codec as compress/flate emits it (16 bytes overhead per 16 KiB) on symbolic bytes; hostile deflate streams outside reach",
+	"stub compress/zlib: real zlib on concrete bytes; stored-block codec as compress/flate emits it (16 bytes overhead per 16 KiB) on symbolic bytes; reads in 32 KiB window chunks with compress/flate's EOF timing, trailer consumed from a bytes.Buffer source by the Read that reports EOF; hostile deflate streams outside reach",
 	"stub encoding/binary.Read/Write: big-endian field-order (de)serialisation of fixed-size values",
 	"stub time: logical clock; math/rand: successive distinct values (no table-name collisions); map iteration in insertion order",
 	"lengths of strings/slices are concrete per path (case split by the harness); bytes and integers are symbolic bit-vectors",
